@@ -248,3 +248,59 @@ def run(ctx):
     ctx.floor('C07.D4', 20)
     ctx.floor('C07.D5', 4)
     ctx.floor('C07.D6', 10)
+
+
+def run_thorough(ctx):
+    """Dump the table and run the extracted client against the
+    specification's server answers: every run in which the server accepts a
+    mechanism (OK) and answers the descriptor negotiation with AGREE_UNIX_FD
+    or ERROR ends authenticated (D7 of the design)."""
+    prog = ctx.prog
+    m = Machine(prog, K)
+    inits = m.initial(['beginAuthentication'],
+                      overrides={'unixFDSupport': [True, False]})
+    m.explore(inits, terminal=lambda mm, s:
+              mm.get(s, 'authenticated') == ('c', True))
+    rows = []
+    for (pre, cmd, outs, post), t in sorted(m.rows().items(),
+                                            key=lambda kv: str(kv[0])):
+        rows.append({'unix': f(m, pre, 'unixFDSupport'),
+                     'guid': m.get(pre, 'guid')[0] != 'c',
+                     'mechanism': str(f(m, pre, 'authMech')),
+                     'command': cmd, 'outputs': list(outs),
+                     'next': post if isinstance(post, str) else
+                     ('AUTHENTICATED' if m.get(post, 'authenticated') ==
+                      ('c', True) else 'handshake')})
+    ctx.extra['transition_table'] = rows
+    # product with the server: after any REJECTED* prefix, server says OK
+    succ = {}
+    for t in m.transitions:
+        if not t.closed and not t.exc:
+            succ.setdefault((t.pre, t.cmd), set()).add(t.post)
+    n = 0
+    for init in inits:
+        frontier = {init}
+        for _ in range(6):
+            nxt = set()
+            for s in frontier:
+                # server accepts now
+                for s_ok in succ.get((s, 'OK'), ()):
+                    ends = set()
+                    if m.get(s_ok, 'authenticated') == ('c', True):
+                        ends.add(True)
+                    else:
+                        for ans in ('AGREE_UNIX_FD', 'ERROR'):
+                            posts = succ.get((s_ok, ans), set())
+                            ends.add(bool(posts) and all(
+                                m.get(x, 'authenticated') == ('c', True)
+                                for x in posts))
+                    n += 1
+                    ctx.ob('C07.D2', K, 'accepted-run-completes',
+                           ends == {True},
+                           'a run in which the server accepts mechanism %r '
+                           'must end authenticated whatever the server '
+                           'answers to the descriptor negotiation'
+                           % (f(m, s, 'authMech'),))
+                nxt |= succ.get((s, 'REJECTED'), set())
+            frontier = nxt
+    ctx.extra['accepted_runs_checked'] = n
